@@ -220,9 +220,9 @@ func CmdCheck(args []string) int {
 		fmt.Fprintln(os.Stderr, "cannot load property definition:", err)
 		return 2
 	}
-	timeout := 40
+	timeout := 90 // generous: an obligation that needs more than a few seconds here is a warning sign, but a slower machine must not turn it into a false alarm
 	if *tier == "thorough" {
-		timeout = 120
+		timeout = 240
 	}
 	oc, err := RunProperty(pd, *repo, *verif, timeout, seed, nil)
 	replayDir := filepath.Join(*verif, "evidence", "replays")
